@@ -12,8 +12,10 @@ Line = `n item…`, file = `n line…`.
     → `<status> <M tokens…> | <wf> | <inline keep=false…> | <inline keep=true…> | <endLast>`
       status 0 ok, 1 file not found, 2 too many input levels, 3 out of fuel
 * `rd <nfiles> (<name> <nlines> (<len> tok…)…)… <nterm> (<len> tok…)… <nops> op…`
-    with op = `0 n f` openin, `1 n` closein, `2 n x` read, `3 n` ifeof, `4 x` use
-    → `<status> <M out…> | <status> <S out…>`; status 0 ok, 1 bad stream, 2 unmatched, 3 terminal exhausted
+    with op = `0 n f` openin, `1 n` closein, `2 n x` read, `8 n x` \\global\\read, `3 n` ifeof, `4 x` use,
+    `5 v` \\endlinechar=v, `6` begin group, `7` end group; a line is `len tok… eol`
+    → `<status> <M out…> | <status> <S out…> | <unrepaired lexer, TeX eof> | <unrepaired lexer, model eof>`;
+      status 0 ok, 1 bad stream, 2 unmatched, 3 terminal exhausted, 4 no group to end
 -/
 open C19 Proto
 
@@ -78,23 +80,31 @@ def decFS : Nat → Cur → Option (FS × Cur)
       let (r, t) ← decFS n t
       pure (((← nat? name), f) :: r, t)
 
-def decTLine (c : Cur) : Option (TLine × Cur) := do
+/-- A raw line: `len tok… eol`, eol = 0 (nothing after a control word), 1 (space), 4 (`\par`),
+9 (the line ends in a comment / an empty terminal line: never an end-of-line token). -/
+def decTLine (c : Cur) : Option (RawLine × Cur) := do
   let (l, c) ← takeList c
-  pure ((← l.mapM decTok), c)
+  let toks ← l.mapM decTok
+  match c with
+  | 0 :: c => pure (⟨toks, some []⟩, c)
+  | 1 :: c => pure (⟨toks, some [.sp]⟩, c)
+  | 4 :: c => pure (⟨toks, some [.par]⟩, c)
+  | 9 :: c => pure (⟨toks, none⟩, c)
+  | _ => none
 
-def decTLines : Nat → Cur → Option (List TLine × Cur)
+def decTLines : Nat → Cur → Option (List RawLine × Cur)
   | 0, c => some ([], c)
   | n + 1, c => do
     let (l, c) ← decTLine c
     let (r, c) ← decTLines n c
     pure (l :: r, c)
 
-def decTFile (c : Cur) : Option (List TLine × Cur) :=
+def decTFile (c : Cur) : Option (List RawLine × Cur) :=
   match c with
   | [] => none
   | n :: t => do decTLines (← nat? n) t
 
-def decRFS : Nat → Cur → Option (List (Nat × List TLine) × Cur)
+def decRFS : Nat → Cur → Option (List (Nat × List RawLine) × Cur)
   | 0, c => some ([], c)
   | n + 1, c =>
     match c with
@@ -116,7 +126,19 @@ def decOps : Nat → Cur → Option (List Op × Cur)
       pure (.closein (← nat? n) :: r, t)
     | 2 :: n :: x :: t => do
       let (r, t) ← decOps k t
-      pure (.read n (← nat? x) :: r, t)
+      pure (.read false n (← nat? x) :: r, t)
+    | 8 :: n :: x :: t => do
+      let (r, t) ← decOps k t
+      pure (.read true n (← nat? x) :: r, t)
+    | 5 :: v :: t => do
+      let (r, t) ← decOps k t
+      pure (.setElc (if v < 0 then .none else if v = 13 then .default else .other v.toNat) :: r, t)
+    | 6 :: t => do
+      let (r, t) ← decOps k t
+      pure (.bgroup :: r, t)
+    | 7 :: t => do
+      let (r, t) ← decOps k t
+      pure (.egroup :: r, t)
     | 3 :: n :: t => do
       let (r, t) ← decOps k t
       pure (.ifeof (← nat? n) :: r, t)
@@ -141,7 +163,8 @@ def handleIn (c : Cur) : Option String := do
     | [] => none
     | n :: c =>
       let (fs, _) ← decFS (← nat? n) c
-      let m := match run fs fuel main with
+      -- `run` with the early-stopping iteration (`iterFast_eq_iter`)
+      let m := match outcomeOf (iterFast fs fuel (initSt main)) with
         | .ok o => "0 " ++ showToks o
         | .notFound o => "1 " ++ showToks o
         | .tooDeep o => "2 " ++ showToks o
@@ -152,8 +175,27 @@ def handleIn (c : Cur) : Option String := do
 
 def showR (st : RSt) : String :=
   (match st.status with
-    | .running => "0" | .badStream => "1" | .unmatched => "2" | .termExhausted => "3")
+    | .running => "0" | .badStream => "1" | .unmatched => "2" | .termExhausted => "3" | .badGroup => "4")
   ++ " " ++ showToks st.out
+
+/-- Classification only (not mentioned by any theorem): the two deviations of the model from TeX
+switched separately. `lazy = false`: the unrepaired lexer, whose lines carry the end-of-line
+character of the moment they were started (C19-d; M and TeX: when they are read); `texEof`: the
+stream stays open until the appended empty line has been read (C19-b). `opStepMix true false`
+is `opStep false` (M), `opStepMix true true` is `opStep true` (S). -/
+def opStepMix (lazy texEof : Bool) (rfs : List (Nat × List RawLine)) (st : RSt) (op : Op) : RSt :=
+  match st.status, op with
+  | .running, .read g n x =>
+    match takeFile st.streams n with
+    | some slots =>
+      let ls := slots.map (mat lazy st.elc)
+      match (if texEof then texReadFile ls 0 [] else readFile ls 0 []) with
+      | .unmatched => { st with status := .unmatched }
+      | .ok toks rem =>
+        defMacro g x toks
+          { st with streams := st.streams.set n.toNat (rem.map (fun r => afterRead st.elc slots r.length)) }
+    | none => opStep texEof rfs st op
+  | _, _ => opStep texEof rfs st op
 
 def handleRd (c : Cur) : Option String := do
   match c with
@@ -165,7 +207,9 @@ def handleRd (c : Cur) : Option String := do
     | [] => none
     | k :: c =>
       let (ops, _) ← decOps (← nat? k) c
-      pure (showR (runOps false rfs term ops) ++ " | " ++ showR (runOps true rfs term ops))
+      pure (showR (runOps false rfs term ops) ++ " | " ++ showR (runOps true rfs term ops)
+        ++ " | " ++ showR (ops.foldl (opStepMix false true rfs) (initR term))
+        ++ " | " ++ showR (ops.foldl (opStepMix false false rfs) (initR term)))
 
 def handle (line : String) : String :=
   match words line with
